@@ -21,7 +21,8 @@ ALGS = ["DYNAMOSA", "MOSA", "MIO", "WHOLE_SUITE", "RANDOM", "RANDOM_TEST_SUITE_S
 
 def configs(ctx: Ctx) -> list[dict]:
     rng = ctx.rng("cfg")
-    budgets = [(1, -1, -1), (2, -1, -1), (3, 12, -1), (10, 9, -1), (10, -1, 30), (4, 25, 60), (10, 1, -1)]
+    budgets = [(1, -1, -1), (2, -1, -1), (3, 12, -1), (10, 9, -1), (10, -1, 30), (4, 25, 60), (10, 1, -1),
+               (20, 6, 100000)]
     out = []
     mods = e2e.MODULES
     for ai, alg in enumerate(ALGS):
@@ -30,20 +31,32 @@ def configs(ctx: Ctx) -> list[dict]:
             out.append({"module": mods[(ai + bi) % len(mods)], "seed": 1 + rng.randrange(50), "algorithm": alg,
                         "iterations": it, "executions": ex, "statements": st, "assertions": "NONE",
                         "metrics": "BRANCH", "population": 4, "min_strategy": "NONE"})
+    # a module whose tests time out: budget accounting must count those executions too
+    for alg in (["DYNAMOSA", "RANDOM"] if ctx.quick else ALGS):
+        out.append({"module": "c_hang", "seed": 4, "algorithm": alg, "iterations": 30, "executions": 8,
+                    "statements": -1, "assertions": "NONE", "metrics": "BRANCH", "population": 4,
+                    "min_strategy": "NONE",
+                    "extra": ["--maximum-test-execution-timeout", "1", "--test-execution-time-per-statement", "1"]})
     return out
 
 
 def project(run: dict) -> dict:
+    """Counters: iterations from the iteration condition, test executions counted by the harness
+    (every executor.execute during the search, timeouts included), statements from the statement
+    condition; LIMITS from the run's configuration, not from the conditions that happen to exist."""
+    cfg = run["cfg"]
+    lim = {"itlim": max(int(cfg.get("iterations", -1)), 0), "exlim": max(int(cfg.get("executions", -1)), 0),
+           "stlim": max(int(cfg.get("statements", -1)), 0)}
+
     def counters(conds, execs_seen):
-        d = {"iters": 0, "itlim": 0, "execs": 0, "exlim": 0, "stmts": 0, "stlim": 0}
+        d = {"iters": 0, "execs": int(execs_seen), "stmts": 0, **lim, "has_it": False, "has_ex": False, "has_st": False}
         for c in conds:
             if c["name"] == "MaxIterationsStoppingCondition":
-                d["iters"], d["itlim"] = c["cur"], max(c["lim"], 0)
+                d["iters"], d["has_it"] = c["cur"], True
             elif c["name"] == "MaxTestExecutionsStoppingCondition":
-                d["execs"], d["exlim"] = c["cur"], max(c["lim"], 0)
+                d["execs"], d["has_ex"] = max(c["cur"], int(execs_seen)), True
             elif c["name"] == "MaxStatementExecutionsStoppingCondition":
-                d["stmts"], d["stlim"] = c["cur"], max(c["lim"], 0)
-        d["seen_execs"] = execs_seen
+                d["stmts"], d["has_st"] = c["cur"], True
         return d
 
     evs = []
